@@ -87,7 +87,11 @@ func main() {
 			}
 			sum.Hist("corpus:" + cc.Expect)
 			sum.Count(cc.Kind+":"+cc.Text, true)
+			// expect = "hypothesis": an input outside a theorem's hypothesis (e.g. duplicate keys);
+			// the model is compared with the implementation, the property oracle is not evaluated
+			skipOracle = cc.Expect == "hypothesis"
 			failed := runText(sum, cw, cc.Kind, cc.Text, false)
+			skipOracle = false
 			if cc.Expect == "known-finding" {
 				if failed {
 					fmt.Printf("corpus %s: still fails (known finding), key=%s\n", filepath.Base(f),
